@@ -53,7 +53,7 @@ class Contract:
   def __init__(self, file, qualname, params, requires=(), ensures=(),
                raises=None, loops=None, result=None, instance=None,
                ghost=None, verify=True, pure=True, note='', may_raise=(),
-               raises_ensures=None, no_alias=(), ghost_out=None, asserts=None, mutates=()):
+               raises_ensures=None, no_alias=(), ghost_out=None, asserts=None, mutates=(), heap_mutates=()):
     self.file = file
     self.qualname = qualname
     self.params = params            # ordered dict: name -> Sort | ('obj', cls) | ('cls', name) | ('seq*', Sort)
@@ -70,6 +70,7 @@ class Contract:
     self.raises_ensures = dict(raises_ensures or {})  # ExcName -> [spec at the raise point]
     self.asserts = dict(asserts or {})   # anchor (source prefix of a statement) -> [specs] asserted right after it
     self.ghost_out = dict(ghost_out or {})  # ghost results visible to callers (fresh at each call)
+    self.heap_mutates = tuple(heap_mutates)   # (param, field) of heap objects the function writes
     self.mutates = tuple(mutates)     # value-sorted parameters the function mutates in place (caller sees a havocked, ensures-constrained value)
     self.no_alias = tuple(no_alias)   # list-of-lists params whose element lists are pairwise distinct objects
 
